@@ -47,6 +47,7 @@ type storeHelper struct {
 
 // StoreHelperRules validates the helpers that write watermark records (C01.O8 record.value, O9 key) for one kind.
 func (c *Ctx) StoreHelperRules(prop string, s *Slashing, kind string) map[*ssa.Function]*storeHelper {
+	prop = homeProp(kind)
 	rule := prop + ".O8 record.value"
 	ruleKey := prop + ".O9 key"
 	state := s.AttState
@@ -255,6 +256,7 @@ func lenIs(n ssa.Value, x ssa.Value) bool {
 // EntryAlignment (C01.O4 state.provenance + O8/O9 at the entry level): the state that is checked is the one fetched
 // for the request's own public key, and the one recorded under that same key.
 func (c *Ctx) EntryAlignment(prop string, s *Slashing, kind string) {
+	prop = homeProp(kind)
 	rule := prop + ".O4 state.provenance"
 	state := s.AttState
 	reqT := s.AttReq
@@ -368,6 +370,7 @@ func (c *Ctx) EntryAlignment(prop string, s *Slashing, kind string) {
 
 // batchAlignment: the batch entry checks req[i] against the state fetched for metadata[i].PubKey, for every i.
 func (c *Ctx) batchAlignment(prop string, s *Slashing, fhs map[*ssa.Function]bool, shs map[*ssa.Function]*storeHelper) {
+	prop = "C01"
 	rule := prop + ".O4 state.provenance"
 	E := s.AttestB
 	metaP, reqP := ssa.Value(E.Params[2]), ssa.Value(E.Params[3])
